@@ -158,6 +158,12 @@ func interactionPrograms() []string {
 			}
 		}
 	}
+	// (I) repeated parameter names; quoted code mentioning parameters and loop variables
+	out = append(out,
+		`func f(a, a) {a}; println(f(1, 2), f(1, "x"), f("x", 2))`, `f = func(a, b, a) {[a, b]}; println(f(1, 2, 3), f(1.5, 2, 3))`, `func f(a, a) {a++; a}; println(f(1, 2))`,
+		`f = func(a, a, a, a, a, a, a, a, a, a) {a}; println(f(1, 2, 3, 4, 5, 6, 7, 8, 9, 10))`, `f = func(a, a) {g = func() {a}; g()}; println(f(1, 2))`,
+		`func f(i) {quote(i)}; println(f(1))`, `func f(i) {quote(i + 1)}; println(f(1))`, `for j = 2 {println(quote(j * 2))}`, `func f(n) {for j = n {println(quote([n, j]))}}; f(2)`,
+		`func f(i) {q = quote(i); ++i; println(q)}; f(1)`, `func f(i) {println(quote(unquote(i)))}; f(1)`)
 	// containers reached through references
 	for _, a := range []string{"x[0] = 5", `x.k = 5`, "del(x[0])", "x = x + 1", "x = x + x", "del(x)"} {
 		for _, init := range []string{"[1, 2, 3]", `{"k": 1, 0: 2}`, "1:12", `{1: 1, 2: 2, 3: 3, 4: 4, 5: 5}`} {
